@@ -8,6 +8,28 @@ from functools import lru_cache
 
 from .common import PKG, REPO, rng, seed_env
 from .gen_prog import DEFAULT_FEATS, Gen, Names
+from .triggers import triggers_of
+
+# triggers that known findings are keyed to: a clean-stream program must satisfy none of them
+FINDING_TRIGGERS = {
+    "main_terminates_and_calls_function",
+    "for_target_bound_more_than_once",
+    "alias_then_mutate_source",
+    "bare_variable_argument",
+    "nested_for_list",
+    "call_in_for_list_body",
+    "return_in_for_list_body",
+    "invert_operator",
+    "const_list_ge6_dynamic_index",
+    "unknown_logic_type_on_generic_device",
+    "ifexp_else_arm_emits_code",
+    "void_function_ends_with_call_to_value_function",
+    "tail_call_candidate_with_other_call",
+    "tail_call_candidate_with_early_return",
+    "global_read_in_expression_with_call_that_writes_it",
+    "value_function_with_single_call_site_inside_function",
+    "name_bound_to_enum_or_structure_and_rebound",
+}
 
 # hazards = generator switches that trigger a known defect of the pinned tree
 HAZARDS = [
@@ -19,6 +41,10 @@ HAZARDS = [
     "invert",
     "const_index_ge6",
     "ifexp_else_load",
+    "global_read_before_call",
+    "void_tail_value",
+    "tail_other_call",
+    "tail_early_return",
 ]
 HAZARD_IMPLIES = {
     "for_list_nested": {"for_list": True},
@@ -63,10 +89,16 @@ def gen_program(prop, stream, i, feats=None, names_pool=None, **kw):
         f[hz] = True
     if feats:
         f.update(feats)
-    names = Names(r, names_pool) if names_pool else None
-    g = Gen(r, f, names=names, **kw)
-    c = g.program()
+    for attempt in range(8):
+        if attempt:
+            r = rng(seed_env(), prop, stream, i, "retry", attempt)
+        names = Names(r, names_pool) if names_pool else None
+        g = Gen(r, f, names=names, **kw)
+        c = g.program()
+        if stream.startswith("defect:") or not (set(triggers_of(c["src"])) & FINDING_TRIGGERS):
+            break
     c["stream"] = stream
+    c["attempts"] = attempt + 1
     return c, r
 
 
